@@ -13,6 +13,7 @@
     are explored (sanitizers, differential run against the Python codec) by
     harness/c09_spine_a.py. *)
 From Asn1V Require Import Base.Prelude CGen.Helpers CGen.HelpersSpec CGen.HelpersProofs CGen.HelpersTie.
+From Asn1V Require Import CGen.GenLogic CGen.GenLogicProofs.
 From Asn1Gen Require Import UperHelpers.
 
 (** helpers_in_bounds (encoder): for EVERY history of helper calls with arguments the
@@ -109,6 +110,48 @@ Print Assumptions C09_append_read_int_roundtrip.
 Theorem C09_helper_text : helper_norm = expected_norm.
 Proof. exact helper_text_is_the_modelled_one. Qed.
 Print Assumptions C09_helper_text.
+
+(** ------------------------------------------------------------------
+    The arithmetic decision logic of the generator (CGen/GenLogic.v, compared
+    with utils.type_length / uper.does_bits_match_range / the emitted checks
+    on every run by harness/c09_logic.py). *)
+
+(** With proposed_fixes/C09-int-signed-half.diff the chosen C type holds every
+    value of the range ... *)
+Theorem C09_type_length_fixed_sound : forall lo hi w v,
+  lo <= hi -> type_length_fixed lo hi = Some w -> lo <= v <= hi -> fits (lo <? 0) w v.
+Proof. exact type_length_fixed_sound. Qed.
+Print Assumptions C09_type_length_fixed_sound.
+
+(** ... while the selection as it is in /repo does not (finding int-signed-half:
+    INTEGER (-1..200) is declared int8_t). *)
+Theorem C09_type_length_signed_half_refuted :
+  exists lo hi w v, lo <= hi /\ type_length lo hi = Some w /\ lo <= v <= hi /\ ~ fits (lo <? 0) w v.
+Proof. exact type_length_signed_half_refuted. Qed.
+Print Assumptions C09_type_length_signed_half_refuted.
+
+(** "Range/length validation is emitted only when the field width over-covers
+    the range": that criterion is exactly right, in both directions. *)
+Theorem C09_bits_match_no_check_needed : forall bits lo hi raw,
+  bits_match_range bits lo hi = true -> 0 <= raw < 2 ^ bits -> lo <= lo + raw <= hi.
+Proof. exact bits_match_no_check_needed. Qed.
+Print Assumptions C09_bits_match_no_check_needed.
+
+Theorem C09_bits_mismatch_check_needed : forall lo hi,
+  lo <= hi -> bits_match_range (nbits (hi - lo)) lo hi = false ->
+  exists raw, 0 <= raw < 2 ^ nbits (hi - lo) /\ hi < lo + raw.
+Proof. exact bits_mismatch_check_needed. Qed.
+Print Assumptions C09_bits_mismatch_check_needed.
+
+Theorem C09_enum_pow2_no_check_needed : forall n idx,
+  is_pow2 n = true -> 0 <= idx < 2 ^ nbits (n - 1) -> idx < n.
+Proof. exact enum_pow2_no_check_needed. Qed.
+Print Assumptions C09_enum_pow2_no_check_needed.
+
+Theorem C09_enum_not_pow2_check_needed : forall n,
+  0 < n -> is_pow2 n = false -> exists idx, 0 <= idx < 2 ^ nbits (n - 1) /\ n <= idx.
+Proof. exact enum_not_pow2_check_needed. Qed.
+Print Assumptions C09_enum_not_pow2_check_needed.
 
 (** Non-vacuity: a live, clean cursor over four bytes, and a history that runs on it. *)
 Example C09_hypotheses_inhabited :
